@@ -72,11 +72,16 @@ PROPS = {
 # dependency closures of the generated-code properties: the library contracts their abstract
 # writer / reader restate are discharged against the real bodies in the same check run
 CLOSURES = {
-    "C02": dict(modules=["contracts.number", "contracts.strings", "contracts.writer"], title="closure: EoWriter"),
-    "C16": dict(modules=["contracts.number", "contracts.strings", "contracts.writer"], title="closure: EoWriter"),
-    "C03": dict(modules=["contracts.number", "contracts.strings", "contracts.reader"], title="closure: EoReader"),
-    "C15": dict(modules=["contracts.number", "contracts.strings", "contracts.writer", "contracts.reader"],
-                title="closure: EoWriter + EoReader"),
+    "C02": dict(modules=["contracts.number", "contracts.strings", "contracts.writer", "lemmas.writer_algebra"],
+                title="closure: EoWriter + writer-algebra lemmas"),
+    "C16": dict(modules=["contracts.number", "contracts.strings", "contracts.writer", "lemmas.writer_algebra"],
+                title="closure: EoWriter + writer-algebra lemmas"),
+    "C03": dict(modules=["contracts.number", "contracts.strings", "contracts.reader", "lemmas.reader_algebra"],
+                title="closure: EoReader + reader-algebra lemmas",
+                extra=extras.reader_algebra),
+    "C15": dict(modules=["contracts.number", "contracts.strings", "contracts.writer", "contracts.reader",
+                         "lemmas.reader_algebra", "lemmas.writer_algebra"],
+                title="closure: EoWriter + EoReader + reader-algebra lemmas", extra=extras.reader_algebra),
     "C01": dict(modules=["contracts.number", "contracts.strings", "contracts.writer", "contracts.reader",
                          "lemmas.c04", "lemmas.c06"], title="closure: writer, reader, pair lemmas"),
 }
